@@ -124,7 +124,10 @@ class C20:
         for st in (True, False):
             cases.append({"kind": 5, "cfg": base_cfg(exe="build", nargs=3, store="ok", pre=True,
                                                      build={"error": False, "launch": "rich", "store": st, "build_sboms": [], "launch_sboms": ["cdx"]})})
-        for det in ("pass_plan", "pass", "pass_plan_multi", "pass_plan_multi"):
+        # metadata tables assembled from HashMaps by the buildpack (build plan requirement, store)
+        cases.append({"kind": 5, "cfg": base_cfg(exe="build", nargs=3, store="ok", pre=True,
+                                                 build={"error": False, "launch": True, "store": "rich", "build_sboms": [], "launch_sboms": []})})
+        for det in ("pass_plan", "pass", "pass_plan_multi", "pass_plan_multi", "pass_plan_meta", "pass_plan_meta"):
             cases.append({"kind": 5, "cfg": base_cfg(exe="detect", nargs=2, det=det, pre=True)})
         return cases
 
